@@ -131,7 +131,7 @@ def _mk_time(slots, p):
 
 def build_args(p):
     args = []
-    pos = 0
+    pos = 5            # spans start at a non-zero offset (start, end and length all differ)
     for ent in LAYOUT:
         if ent["k"] == "rm":
             info = ent["info"]
@@ -263,6 +263,19 @@ def run_step(p):
             return False, "frame: an argument was modified"
         if r is not None and any(r is a for a in args):
             return False, "frame: the result is one of the arguments (aliasing)"
+        if r is not None and not RULE.startswith("@"):
+            # a candidate does not change after it has been yielded: a second application of the
+            # rule elsewhere in the text (same values, other spans) must not touch the first result
+            s1 = snap(r)
+            args2 = build_args(p)
+            for a in args2:
+                a.mstart, a.mend = a.mstart + 40, a.mend + 40
+            try:
+                r2 = WRAPPER(ts, *args2)
+            except Exception:
+                r2 = None
+            if r2 is r or snap(r) != s1:
+                return False, "frame: the result object is shared between applications (a later application rewrote an earlier result)"
     if r is None:
         if "closure" in CLAUSES and "N" not in ALLOWED:
             return False, "closure: result shape N outside the recorded closure"
